@@ -12,3 +12,6 @@ pub mod net;
 pub mod shutdown;
 pub mod storage;
 pub mod telemetry;
+
+#[cfg(feature = "verif")]
+pub mod verif;
